@@ -1198,7 +1198,7 @@ BoundsSuite.make_into = _make_into
 
 def _make_union_bounds(self, r, tid):
     """generic unions: stand-alone Eq (beside a hand-written PartialEq) and Copy + Clone bound every field type"""
-    trait = pick(r, ['Eq', 'CopyClone'])
+    trait = pick(r, ['Eq', 'CopyClone', 'Default'])
     params = ['X', 'Y'][:pick(r, [1, 2])]
     fs = [Fld(nm, FT('::core::mem::ManuallyDrop<%s>' % p, [])) for nm, p in zip(['a', 'b'], params)]
     if r.random() < 0.4:
@@ -1207,7 +1207,19 @@ def _make_union_bounds(self, r, tid):
     t = Ty(tid, 'union', [Var(None, 'named', fs)])
     t.generic = params
     g = ', '.join(params)
-    if trait == 'Eq':
+    need_all = True
+    if trait == 'Default':
+        # only the chosen field is defaulted, and only when it has no expression of its own
+        ch = pick(r, [f for f in fs if 'ManuallyDrop' in f.ft.rust])
+        chp = re.search(r'<(\w)>', ch.ft.rust).group(1)
+        withexpr = r.random() < 0.5
+        ch.at['_metas'] = [pick(r, ['Default(expression = g_default())', 'Default(expr(g_default()))'])] if withexpr else ['Default']
+        t.type_attrs = [pick(r, ['Default', 'Default(new)'])]
+        extra = []
+        probes = [('p_default', 'Default')]
+        need_all = False
+        needed_params = set() if withexpr else {chp}
+    elif trait == 'Eq':
         t.type_attrs = ['Eq']
         extra = [MANUAL_IMPL['PartialEq'] % dict(g=g, a=g)]
         probes = [('p_eq', 'Eq')]
@@ -1219,6 +1231,8 @@ def _make_union_bounds(self, r, tid):
     for probe, tn in probes:
         for combo in itertools.product(['Good', 'Bad', 'Half'], repeat=len(params)):
             exp = all((c == 'Good' or (c == 'Half' and trait == 'Eq')) for c in combo)
+            if not need_all:
+                exp = all(c != 'Bad' for p_, c in zip(params, combo) if p_ in needed_params)
             inst = 'T<%s>' % ', '.join(combo)
             checks.append('{ use crate::support::%s::Fallback as _; let g = crate::support::%s::P::<%s>::YES; out.check(g == %s, "%s", "impl_applies", || format!("%s: %s is {} but the field types say %s", g)); }'
                           % (probe, probe, inst, 'true' if exp else 'false', tid, inst, tn, 'true' if exp else 'false'))
@@ -1482,7 +1496,7 @@ def build_and_run(mods, max_rounds=4):
 def meta_traits(meta):
     return list(meta.get('traits') or []) + ([meta['trait']] if meta.get('trait') else [])
 
-def run(pid, suites, tier, seed, n=None, hostile=False, only_ops=None, also=None):
+def run(pid, suites, tier, seed, n=None, hostile=False, only_ops=None, also=None, n_by=None):
     """-> (failures, stats).  failure: dict(key, what, type_def, detail).
     also: [(suite, trait, n)] - types of another suite (generics / bounds) that educe `trait`; their failures count too"""
     with vlib.Lock('k2lock'):
@@ -1490,7 +1504,7 @@ def run(pid, suites, tier, seed, n=None, hostile=False, only_ops=None, also=None
         n = n or (40 if tier == 'quick' else 400)
         HOSTILE[0] = hostile
         mods, info = [], {}
-        plan = [(sname, None, n) for sname in suites] + [(a[0], a[1], a[2][0 if tier == 'quick' else 1]) for a in (also or [])]
+        plan = [(sname, None, (n_by or {}).get(sname, (n, n))[0 if tier == 'quick' else 1] if (n_by or {}).get(sname) else n) for sname in suites] + [(a[0], a[1], a[2][0 if tier == 'quick' else 1]) for a in (also or [])]
         for sname, want, cnt in plan:
             S = SUITES[sname]
             for i in range(cnt):
